@@ -82,12 +82,64 @@ func okBreak(s string) int {
 
 // ---- outside the subset: each must become an UNTRANSLATABLE comment
 
-func badShadow(a int) int {
+func okShadow(a int) int {
 	if a > 0 {
-		a := 2
-		return a
+		a := a + 2
+		a++
+		if a > 5 {
+			return a
+		}
 	}
 	return a
+}
+
+func okVar(s []string) (n int, last string) {
+	var k int
+	var seen bool
+	for _, s := range s {
+		if s == "" {
+			s = "/"
+		}
+		if !seen && okHasX(s) {
+			seen = true
+		}
+		last = s
+		k++
+	}
+	return k, last
+}
+
+func okHasX(s string) bool {
+	for i := 0; i < len(s); i++ {
+		if s[i] == 'x' {
+			return true
+		}
+	}
+	return false
+}
+
+func okNil(p *pt, q *pt) int {
+	if p == nil {
+		return 0
+	}
+	if q != nil {
+		return len(p.name) + len(q.name)
+	}
+	return len(p.name)
+}
+
+func badNilDeref(p *pt) int {
+	if p == nil {
+		return len(p.name)
+	}
+	return 1
+}
+
+func okI64(a int64) int64 {
+	if a < 0 {
+		return a/1e3 - a%1e3
+	}
+	return a * 2
 }
 
 func badWhile(a int) int {
